@@ -85,6 +85,13 @@ def variants(quick, rng):
     for x in ("ASN", "GLN", "HIS"):
         seq = ["ALA", "ALA", x]
         jobs.append({"what": f"{'-'.join(seq)} all steps", "text": gen.pdb_text([gen.peptide(seq) + gen.water((6, 14, 4), resseq=101)]), "args": ["--ff=PARSE"]})
+    # a backbone atom missing in an inner / terminal residue (rebuilt from the peptide neighbours)
+    for n, x in enumerate(gen.AMINO if not quick else gen.AMINO[::4]):
+        for pos, nm in ((1, "O"), (0, "O"), (1, "C"), (1, "N"), (2, "O"), (1, "CA"))[:(6 if not quick else 3)]:
+            seq = ["ALA", "ALA", "ALA", "ALA"]
+            seq[pos] = x
+            jobs.append({"what": f"{'-'.join(seq)} without backbone {nm} of residue {pos + 1}", "args": [f"--ff={ffs[(n + pos) % 6]}"],
+                         "text": gen.pdb_text([gen.peptide(seq, omit={(pos, nm)})])})
     # backbone gap inside one chain (no TER, numbering continues)
     full = gen.peptide(["ALA", "SER", "LYS", "GLY", "TRP", "ASP", "VAL", "LEU"])
     gap = [a for a in full if a["res_index"] not in (3, 4)]
